@@ -486,7 +486,12 @@ fn gen(rng: &mut Rng, tier: Tier, out: &mut Vec<String>) {
             let (a, b): (f32, Option<f32>) = match f {
                 "sin" | "cos" | "tan" => (rng.f32_in(-12.6, 12.6), None),
                 "asin" | "acos" => (rng.f32_in(-1.0, 1.0), None),
-                "atan2" => (rng.f32_in(-10.0, 10.0), Some(rng.f32_in(-10.0, 10.0))),
+                // the direction of a vector does not depend on its length: a third of the arguments are scaled as a
+                // pair by 1e-30..1e30 (a special case for "small" arguments shows only there)
+                "atan2" => {
+                    let k = if rng.chance(1, 3) { 10f32.powf(rng.f32_in(-30.0, 30.0)) } else { 1.0 };
+                    (rng.f32_in(-10.0, 10.0) * k, Some(rng.f32_in(-10.0, 10.0) * k))
+                }
                 "sqrt" | "recip_sqrt" => (f32::from_bits(rng.below(0x7f00_0000 - 0x0080_0000) as u32 + 0x0080_0000), None),
                 "powf" => (rng.f32_in(0.001, 16.0), Some(rng.f32_in(-4.0, 4.0))),
                 "exp" => (rng.f32_in(-80.0, 80.0), None),
